@@ -276,6 +276,34 @@ class K6Adapter(CaseAdapter):
                              'mode:flat-stretches', 'mode:monotone-up']}
 
 
+class K7Adapter(CaseAdapter):
+    module_name = 'k7'
+    label = 'K7 (harness/k7*.py)'
+    N = dict(quick={'C08': 150, 'C14': 120, 'C07': 80, 'C18': 8, 'C09': 60, 'C16': 60, 'C19': 80},
+             thorough={'C08': 3000, 'C14': 2000, 'C07': 1200, 'C18': 60, 'C09': 800, 'C16': 800, 'C19': 1000})
+    SEARCH = dict(quick=150, thorough=800)
+    rule = ('seeded whole backtests on synthetic CSV markets written to a temporary directory (1-4 assets, gaps, missing cells, '
+            'assets starting late; weekly/daily/end-of-month/buy-and-hold schedules; long-only and long/short sizing; zero and '
+            'percentage fees; burn-in before/on/between rebalance instants; fixed-weight, universe-driven, momentum and '
+            'inverse-volatility alpha models; static and dynamic universes with entries on / one minute after a rebalance), run '
+            'through BacktestTradingSession.run() with recording taps at the component interfaces; evaluations = sessions; '
+            'non-trivial = a session with at least one fill; distinct by SHA-256')
+    assumptions = ['sessions whose alpha model is signal-driven have no whole-run model: they are judged by the relational and '
+                   'structural oracles only', 'markets are synthetic; CSV parsing is pandas\'s']
+    required_hist = {'C08': ['rebalance:buy_and_hold', 'rebalance:daily', 'rebalance:weekly', 'rebalance:end_of_month', 'long_only',
+                             'long_short', 'fee:P', 'fee:Z', 'run:with-sells', 'burn-in'],
+                     'C14': ['burn-in', 'rebalance:buy_and_hold', 'run:two-or-more-rebalances', 'family:signal', 'family:dynamic'],
+                     'C07': ['family:signal', 'family:dynamic', 'family:fixed', 'run:with-fills']}
+
+    def accepts(self, case):
+        return 'market' in case
+
+    def search(self, prop, tier, seed, mismatches):
+        if prop == 'C18':
+            return []
+        return CaseAdapter.search(self, prop, tier, seed, mismatches)
+
+
 class Composite(object):
     """Several harnesses decide one property: results are concatenated, coverage is summed / nested."""
     parts = ()
@@ -334,10 +362,20 @@ class C04Adapter(Composite):
     parts = (K3Adapter, K1Adapter)
 
 
+class K4K7Adapter(Composite):
+    parts = (K4Adapter, K7Adapter)
+
+
+class K5K7Adapter(Composite):
+    parts = (K5Adapter, K7Adapter)
+
+
 PROPS = {p: K3Adapter for p in ('C01', 'C02', 'C03', 'C05', 'C15')}
 PROPS['C04'] = C04Adapter
 PROPS.update({p: K1Adapter for p in ('C12', 'C13')})
 PROPS['C06'] = K2Adapter
-PROPS['C16'] = K5Adapter
+PROPS['C16'] = K5K7Adapter
 PROPS['C17'] = K6Adapter
-PROPS.update({p: K4Adapter for p in ('C09', 'C10', 'C11', 'C19')})
+PROPS.update({p: K4Adapter for p in ('C10', 'C11')})
+PROPS.update({p: K4K7Adapter for p in ('C09', 'C19')})
+PROPS.update({p: K7Adapter for p in ('C07', 'C08', 'C14', 'C18')})
